@@ -228,6 +228,40 @@ theorem reset_partial (cfg : Cfg) {h : List Input} {v : View} {t : List Note}
   · rw [hR.bin, hd.1]; rfl
   · rw [hR.sid, hd.1]; rfl
 
+/-- **C08.mirror / reset with `reconnection=True`** (`_partial`: inside `specRun`) — everything above
+    holds verbatim for a client created with `reconnection=b`: an accidental loss of the transport
+    additionally *starts* the reconnection effort (`Out.effort`; the effort itself is C10's), and in
+    the window between the loss and the first attempt the client mirrors "nothing connected":
+    the notifications are those of the server's view (one `disconnect` per connected namespace),
+    `namespaces`, `connected`, sid, callbacks and binary buffer are those of a disconnected client
+    — so `emit`/`send`/`call` raise `BadNamespaceError` there (`bad_namespace`). -/
+theorem reconnecting_partial (cfg : Cfg) (b : Bool) {h : List Input} {v : View} {t : List Note}
+    (hs : specRun false View.down h = some (v, t)) :
+    let c := (run cfg (initR b) h).1
+    notes (run cfg (initR b) h).2 = t ∧ c.namespaces = v.acc ∧ c.connected = v.up
+    ∧ (v.up = false → Clean c) := by
+  obtain ⟨q, hR, hn⟩ := sim_run cfg false h (R_initR b []) hs
+  intro c
+  have hconn : c.connected = v.up := by have := hR.conn; simpa using this
+  refine ⟨hn, hR.ns_live, hconn, fun hup => ?_⟩
+  have hd := hR.down hup
+  have heio : c.eio = .disconnected := by have := hR.eio; simpa [hup] using this
+  refine ⟨by rw [hconn, hup], ?_, heio, hd.2.1, hd.2.2, ?_, ?_⟩
+  · rw [hR.ns_live, hd.1]; rfl
+  · rw [hR.bin, hd.1]; rfl
+  · rw [hR.sid, hd.1]; rfl
+
+/-- the effort is started by an accidental loss of a live transport when `reconnection` is set and no
+    effort is pending — and by nothing else (`startEffort` occurs in `onLost` only) -/
+theorem effort_started (cfg : Cfg) (c : Cli) (he : c.eio = .connected) (hr : c.reconnection = true)
+    (hn : c.effort = false) :
+    (deliver cfg c .lost).2.getLast? = some .effort ∧ (deliver cfg c .lost).1.effort = true := by
+  have h1 : (onEioDisconnect cfg c rTransport).1.reconnection = true := by
+    unfold onEioDisconnect; split <;> exact hr
+  have h2 : (onEioDisconnect cfg c rTransport).1.effort = false := by
+    unfold onEioDisconnect; split <;> exact hn
+  simp [deliver, onLost, he, startEffort, h1, h2]
+
 /-- **C08.reset**, the part that needs no hypothesis at all — after *every* history (conformant
     peer or not, the three known regions included): while the transport is down the client holds
     no session id and no half-received binary packet. -/
